@@ -46,6 +46,14 @@ func Pool(pad int) []PoolItem {
 		{"q3", Content{Props: props(), Refs: props("q", "e3")}},
 		{"r1", Content{Props: props(), Refs: props("p", "e1")}},
 		{"e", Content{Props: props(), Refs: no}},
+		// ---- equal-length partners of earlier items (same serialised length, different meaning) ----
+		{"dv2", Content{Props: props("v", 2), Refs: no, Deleted: true}},
+		{"r3", Content{Props: props(), Refs: props("p", "e3")}},
+		{"r32", Content{Props: props(), Refs: props("p", []interface{}{"e3", "e2"})}},
+		{"arr21", Content{Props: props("v", []interface{}{2, 1}), Refs: no}},
+		{"psa", Content{Props: props(), Refs: props("p", "e2", "q", []interface{}{"e2"})}},
+		{"pas", Content{Props: props(), Refs: props("p", []interface{}{"e2"}, "q", "e2")}},
+		{"nest2", Content{Props: props("v", map[string]interface{}{"id": "n9", "props": map[string]interface{}{"w": 2}, "refs": map[string]interface{}{}}), Refs: no}},
 	}
 	return items
 }
